@@ -69,4 +69,24 @@ def legacyLoop : Nat → List Nat → Bool
 
 def legacyMet (bs : List Nat) : Bool := legacyLoop (bs.length + 1) bs
 
+/-- "ENCODER OUTPUT" as a predicate on bytes, stated with the independent framing reader: the stream consists of
+bytes and is one well-formed sequence with a 14-byte header that carries its computed CRC, and a correct file CRC. -/
+def IsEncoderOutput14 (f : List Nat) : Prop :=
+  (∀ b ∈ f, b < 256) ∧ ∃ s, parseStream f = some [s] ∧ s.header.size = 14 ∧
+    headerCrcStrict f s = true ∧ fileCrcOk f s = true
+
+instance (f : List Nat) : Decidable (IsEncoderOutput14 f) := by
+  unfold IsEncoderOutput14
+  have : Decidable (∃ s, parseStream f = some [s] ∧ s.header.size = 14 ∧
+      headerCrcStrict f s = true ∧ fileCrcOk f s = true) :=
+    match h : parseStream f with
+    | some [s] =>
+      if hc : s.header.size = 14 ∧ headerCrcStrict f s = true ∧ fileCrcOk f s = true
+      then isTrue ⟨s, rfl, hc⟩
+      else isFalse (by rintro ⟨s', hs', hc'⟩; cases hs'; exact hc hc')
+    | none => isFalse (by rintro ⟨s', hs', _⟩; cases hs')
+    | some [] => isFalse (by rintro ⟨s', hs', _⟩; cases hs')
+    | some (_ :: _ :: _) => isFalse (by rintro ⟨s', hs', _⟩; cases hs')
+  infer_instance
+
 end Fit.IntegritySpec
